@@ -221,6 +221,7 @@ class Ctx:
         self.rng = random.Random(seed * 1000003 + int(pid[1:]))
         self.t0 = time.time()
         self.violations = []        # (replay dict, found_input: bool)
+        self.replay_paths = []      # replay files written by finish()
         self.known_hits = []        # strings
         self.coverage = dict(obligations=0, discharged=0, checker_cmd='', trusted_base=[],
                              evaluations=0, distinct_nontrivial=0, rule='', samples=[])
@@ -288,14 +289,14 @@ class Ctx:
             h = hashlib.sha1(json.dumps(body, sort_keys=True, default=str).encode()).hexdigest()[:12]
             path = os.path.join(VERIF, 'replays', '%s-%s.json' % (self.pid, h))
             json.dump(body, open(path, 'w'), indent=1, default=str)
-            lines.append('VIOLATION property=%s replay=%s' % (self.pid, path))
+            lines.append('VIOLATION property=%s replay=%s' % (self.pid, path)); self.replay_paths.append(path)
         if self.broken and not self.violations:
             body = dict(property=self.pid, tier=self.tier, seed=self.seed, kind='no-failing-input-found',
                         no_longer_checks=self.broken, notes=self.notes)
             h = hashlib.sha1(json.dumps(body, sort_keys=True, default=str).encode()).hexdigest()[:12]
             path = os.path.join(VERIF, 'replays', '%s-%s.json' % (self.pid, h))
             json.dump(body, open(path, 'w'), indent=1, default=str)
-            lines.append('VIOLATION property=%s replay=%s no-failing-input-found' % (self.pid, path))
+            lines.append('VIOLATION property=%s replay=%s no-failing-input-found' % (self.pid, path)); self.replay_paths.append(path)
         cov = self.coverage
         cov['known_findings_matched'] = self.known_hits
         cov['no_longer_checks'] = self.broken
